@@ -10,19 +10,27 @@ abbrev I3 := List (Option Bool)
 /-- the total assignment given by the bits of `a` -/
 def asgOf (a : Nat) : Asg := fun v => a.testBit v
 
-/-- all total assignments over `n` statements (as bit masks) that extend `w` -/
+/-- all total assignments over `n` statements (as bit masks) that extend `w`: one mask per choice of
+values for the undecided statements (generated directly, `2^u` masks for `u` undecided statements) -/
 def completions (n : Nat) (w : I3) : List Nat :=
-  (List.range (2 ^ n)).filter (fun a =>
-    (List.range n).all (fun i => match w.getD i none with | some b => a.testBit i == b | none => true))
+  (List.range n).foldl (fun acc i =>
+    match w.getD i none with
+    | some true => acc.map (· + 2 ^ i)
+    | some false => acc
+    | none => acc ++ acc.map (· + 2 ^ i)) [0]
 
-/-- three-valued value of a condition under `w` -/
-def val3 (n : Nat) (f : Fm) (w : I3) : Option Bool :=
-  let cs := completions n w
+/-- three-valued value of a condition over a set of completions -/
+def valOver (cs : List Nat) (f : Fm) : Option Bool :=
   if cs.all (fun a => f.sem (asgOf a)) then some true
   else if cs.all (fun a => !f.sem (asgOf a)) then some false else none
 
-/-- the consequence operator Γ -/
-def gamma (fs : List Fm) (w : I3) : I3 := fs.map (fun f => val3 fs.length f w)
+/-- three-valued value of a condition under `w` -/
+def val3 (n : Nat) (f : Fm) (w : I3) : Option Bool := valOver (completions n w) f
+
+/-- the consequence operator Γ (the completions of `w` are enumerated once) -/
+def gamma (fs : List Fm) (w : I3) : I3 :=
+  let cs := completions fs.length w
+  fs.map (valOver cs)
 
 def iter (fs : List Fm) : Nat → I3 → I3
   | 0, w => w
@@ -52,7 +60,33 @@ def reductFm (v : I3) : Fm → Fm
 def stable (fs : List Fm) : List I3 :=
   ((complete fs).filter isTotal).filter (fun v => grounded (fs.map (reductFm v)) == v)
 
+/-! For wide frameworks (more than `smallN` statements) the enumeration of all `3^n` interpretations is
+    replaced by the enumeration of the extensions of the grounded interpretation: every fixpoint of Γ
+    extends the least fixpoint, so nothing is lost.  Small frameworks keep the plain enumeration; the
+    two coincide there (checked on instances below). -/
+
+def smallN : Nat := 7
+
+/-- all interpretations that keep the decided values of `g` -/
+def extensions : I3 → List I3
+  | [] => [[]]
+  | some b :: r => (extensions r).map (fun w => some b :: w)
+  | none :: r => (extensions r).flatMap (fun w => [none :: w, some true :: w, some false :: w])
+
+def completeAbove (fs : List Fm) : List I3 := (extensions (grounded fs)).filter (fun w => gamma fs w == w)
+
+def stableAbove (fs : List Fm) : List I3 :=
+  ((completeAbove fs).filter isTotal).filter (fun v => grounded (fs.map (reductFm v)) == v)
+
+def completeOf (fs : List Fm) : List I3 := if fs.length ≤ smallN then complete fs else completeAbove fs
+def stableOf (fs : List Fm) : List I3 := if fs.length ≤ smallN then stable fs else stableAbove fs
+
 def showI3 (w : I3) : String :=
   String.ofList (w.map (fun x => match x with | some true => 'T' | some false => 'F' | none => 'u'))
+
+/-- the pre-study instance `ac(a,c). ac(b,and(b,a)). ac(c,c).`: both enumerations agree -/
+example : (completeAbove [.atom 2, .and (.atom 1) (.atom 0), .atom 2]).length = (complete [.atom 2, .and (.atom 1) (.atom 0), .atom 2]).length := by
+  decide
+example : stableAbove [.not (.atom 1), .not (.atom 0)] = [[some false, some true], [some true, some false]] := by decide
 
 end WebSem
